@@ -65,8 +65,8 @@ func NewLimiterMiddleware(hdrName string, reqLimiter *IPRequestLimiter) func(nex
 		fn := func(w http.ResponseWriter, r *http.Request) {
 			ip, err := ipFromRequest(r)
 			if err != nil {
-				_, _ = w.Write([]byte("could not read client IP"))
 				w.WriteHeader(http.StatusBadRequest)
+				_, _ = w.Write([]byte("could not read client IP"))
 				return
 			}
 			now := time.Now()
